@@ -44,7 +44,21 @@ pub enum RunEnd {
     Budget,
 }
 
+type Pending = Rc<RefCell<Vec<(String, Pin<Box<dyn Future<Output = ()>>>)>>>;
+
+/// Lets a running task start further tasks; they are adopted by the executor before its next
+/// scheduling decision.
+#[derive(Clone)]
+pub struct Spawner(Pending);
+
+impl Spawner {
+    pub fn spawn(&self, name: &str, fut: impl Future<Output = ()> + 'static) {
+        self.0.borrow_mut().push((name.to_string(), Box::pin(fut)));
+    }
+}
+
 pub struct Dx {
+    pending: Pending,
     tasks: Vec<Task>,
     pub polls: u64,
     pub trace: u64,
@@ -63,7 +77,19 @@ impl Default for Dx {
 
 impl Dx {
     pub fn new() -> Self {
-        Dx { tasks: Vec::new(), polls: 0, trace: 0xcbf29ce484222325, panics: Vec::new(), spurious: (0, 1) }
+        Dx { pending: Rc::new(RefCell::new(Vec::new())), tasks: Vec::new(), polls: 0, trace: 0xcbf29ce484222325, panics: Vec::new(), spurious: (0, 1) }
+    }
+
+    pub fn spawner(&self) -> Spawner {
+        Spawner(self.pending.clone())
+    }
+
+    /// Adopts tasks started through a `Spawner`.
+    pub fn adopt(&mut self) {
+        let new: Vec<_> = self.pending.borrow_mut().drain(..).collect();
+        for (name, fut) in new {
+            self.tasks.push(Task { name, fut: Some(fut), flag: Arc::new(Flag(AtomicBool::new(true))), polls: 0 });
+        }
     }
 
     pub fn spawn(&mut self, name: &str, fut: impl Future<Output = ()> + 'static) -> TaskId {
@@ -183,6 +209,7 @@ impl Dx {
     pub fn run_random(&mut self, rng: &mut Rng, budget: u64) -> RunEnd {
         let start = self.polls;
         loop {
+            self.adopt();
             let ready = self.ready_set();
             if ready.is_empty() {
                 return RunEnd::Quiescent;
@@ -222,5 +249,107 @@ pub fn now_or_never<T>(fut: impl Future<Output = T>) -> Option<T> {
     match fut.as_mut().poll(&mut cx) {
         Poll::Ready(v) => Some(v),
         Poll::Pending => None,
+    }
+}
+
+/// One-shot value with wakers, for coordination between harness tasks on `dx`.
+pub struct Signal<T>(Rc<RefCell<(Option<T>, Vec<Waker>)>>);
+
+impl<T> Clone for Signal<T> {
+    fn clone(&self) -> Self {
+        Signal(self.0.clone())
+    }
+}
+
+impl<T: Clone> Signal<T> {
+    pub fn new() -> Self {
+        Signal(Rc::new(RefCell::new((None, Vec::new()))))
+    }
+    pub fn set(&self, v: T) {
+        let ws: Vec<Waker> = {
+            let mut g = self.0.borrow_mut();
+            g.0 = Some(v);
+            g.1.drain(..).collect()
+        };
+        for w in ws {
+            w.wake();
+        }
+    }
+    pub fn get(&self) -> Option<T> {
+        self.0.borrow().0.clone()
+    }
+    pub fn wait(&self) -> SignalWait<T> {
+        SignalWait(self.clone())
+    }
+}
+
+impl<T: Clone> Default for Signal<T> {
+    fn default() -> Self {
+        Self::new()
+    }
+}
+
+pub struct SignalWait<T>(Signal<T>);
+
+impl<T: Clone> Future for SignalWait<T> {
+    type Output = T;
+    fn poll(self: Pin<&mut Self>, cx: &mut Context) -> Poll<T> {
+        let mut g = (self.0).0.borrow_mut();
+        match &g.0 {
+            Some(v) => Poll::Ready(v.clone()),
+            None => {
+                g.1.push(cx.waker().clone());
+                Poll::Pending
+            }
+        }
+    }
+}
+
+/// Polls the inner future at most `n` times (keeping itself scheduled), then drops it.
+pub struct CancelAfter<F> {
+    pub fut: Option<Pin<Box<F>>>,
+    pub left: u32,
+}
+
+pub fn cancel_after<F: Future>(fut: F, n: u32) -> CancelAfter<F> {
+    CancelAfter { fut: Some(Box::pin(fut)), left: n }
+}
+
+impl<F: Future> Future for CancelAfter<F> {
+    type Output = Option<F::Output>;
+    fn poll(mut self: Pin<&mut Self>, cx: &mut Context) -> Poll<Self::Output> {
+        let this = &mut *self;
+        let Some(f) = this.fut.as_mut() else { return Poll::Ready(None) };
+        if this.left == 0 {
+            this.fut = None;
+            return Poll::Ready(None);
+        }
+        this.left -= 1;
+        match f.as_mut().poll(cx) {
+            Poll::Ready(v) => {
+                this.fut = None;
+                Poll::Ready(Some(v))
+            }
+            Poll::Pending => {
+                cx.waker().wake_by_ref();
+                Poll::Pending
+            }
+        }
+    }
+}
+
+/// Yields once to the executor.
+pub struct YieldNow(pub bool);
+
+impl Future for YieldNow {
+    type Output = ();
+    fn poll(mut self: Pin<&mut Self>, cx: &mut Context) -> Poll<()> {
+        if self.0 {
+            Poll::Ready(())
+        } else {
+            self.0 = true;
+            cx.waker().wake_by_ref();
+            Poll::Pending
+        }
     }
 }
